@@ -1,6 +1,11 @@
 package main
 
-import "fmt"
+import (
+	"fmt"
+	"runtime"
+	"sync"
+	"time"
+)
 
 // ---------- C04: joins ----------
 
@@ -198,7 +203,7 @@ func genC04(r *Rand, tier string) []Case {
 
 func init() {
 	register(engineProp{id: "C04", checkFn: "EngineRun.check_join", gen: genC04,
-		rule: "pairs of tables (0-5 x 0-5 rows, duplicate keys, two numeric key columns + one string key column per side with texts that collide under naive concatenation, occasional NULL / missing keys, empty sides) x ON built from 1-3 column pairs with = != < <= > >= joined by AND/OR in random order and orientation, column names chosen so the two sides sort differently; every (table pair, ON) is rendered for all 3 join types x all strategies (auto, HASH_JOIN, STRAIGHT_JOIN, PARALLEL, PARALLEL HASH_JOIN, PARALLEL STRAIGHT_JOIN: 14 renderings); observable: the multiset of merged rows, compared with the code-shaped model AND with the textbook specification; non-trivial = non-error, non-empty result"})
+		rule: "pairs of tables (0-5 x 0-5 rows, duplicate keys, two numeric key columns + one string key column per side with texts that collide under naive concatenation, occasional NULL / missing keys, empty sides) x ON built from 1-3 column pairs with = != < <= > >= joined by AND/OR in random order and orientation, column names chosen so the two sides sort differently; every (table pair, ON) is rendered for all 3 join types x all strategies (auto, HASH_JOIN, STRAIGHT_JOIN, PARALLEL, PARALLEL HASH_JOIN, PARALLEL STRAIGHT_JOIN: 14 renderings); observable: the multiset of merged rows, compared with the code-shaped model AND with the textbook specification; non-trivial = non-error, non-empty result; further streams (r4_c04.go): equi-joins in which one column of one side is compared with SEVERAL columns of the other side (2-3 conjuncts, shared column on either or both sides, numeric or string keys) over tables holding rows whose key columns all carry one value, all 14 renderings; two-column string keys whose values contain a byte a key encoding might use in-band (every control character 0x00-0x1f, DEL, punctuation, digit+colon, NBSP, U+2028) and tie when the two columns are written one after the other in either column order, within one side and across sides, one hash-path and one nested-loop rendering each (all 14 in the thorough tier) plus non-equi ON"})
 }
 
 // ---------- C04 stress: PARALLEL drivers against the sequential ones on large key sets ----------
@@ -280,4 +285,147 @@ func runC04Stress(tier string, seed uint64, out string) {
 	}
 	writeJSON(out+"/c04stress.json", map[string]any{"rounds": rounds, "runs": runs, "failures": failures, "cases": runs,
 		"samples": []any{map[string]any{"par": "SELECT * FROM l x PARALLEL HASH_JOIN r y ON x.k = y.m", "keys": 2000}}})
+}
+
+// ---------- C04 stress, second driver: the PARALLEL nested loop with large batches per left key ----------
+// The first driver above mostly exercises the hash path (one small batch per key). Here the ON clause is not a pure
+// conjunction of equalities (or the join is a PARALLEL STRAIGHT_JOIN), so every left key is matched against every right
+// key by its own goroutine and contributes a batch of hundreds to thousands of merged rows (many duplicates per key on
+// both sides, wide comparisons such as != < <=). The same query is repeated many times, by several callers at once (each on
+// its own copy of the document) and with more Ps than cores, so that a goroutine is likely to be descheduled between two
+// steps of its hand-over; every single result must be the multiset of the sequential join (C04_parallel_schedules).
+
+func init() { auxRegistry["c04nested"] = runC04Nested }
+
+// pairKey identifies a merged row {x: l, y: r} by the rid of its two sides (-1 = NULL side, -2 = not such a row).
+func pairKeys(rows []any) map[[2]int]int {
+	m := map[[2]int]int{}
+	side := func(v any) int {
+		switch t := v.(type) {
+		case nil:
+			return -1
+		case map[string]any:
+			if f, ok := t["rid"].(float64); ok {
+				return int(f)
+			}
+		}
+		return -2
+	}
+	for _, r := range rows {
+		row, ok := r.(map[string]any)
+		if !ok || len(row) != 2 {
+			m[[2]int{-2, -2}]++
+			continue
+		}
+		m[[2]int{side(row["x"]), side(row["y"])}]++
+	}
+	return m
+}
+
+func samePairs(a, b map[[2]int]int) bool {
+	if len(a) != len(b) {
+		return false
+	}
+	for k, v := range a {
+		if b[k] != v {
+			return false
+		}
+	}
+	return true
+}
+
+func runC04Nested(tier string, seed uint64, out string) {
+	r := NewRand(seed ^ 0xC04)
+	budget, maxRuns, minRounds := 11*time.Second, 900, 3
+	if tier == "thorough" {
+		budget, maxRuns, minRounds = 90*time.Second, 12000, 12
+	}
+	callers := 4
+	old := runtime.GOMAXPROCS(0)
+	procs := 4 * runtime.NumCPU()
+	if procs < 16 {
+		procs = 16
+	}
+	if procs > 128 {
+		procs = 128
+	}
+	runtime.GOMAXPROCS(procs)
+	defer runtime.GOMAXPROCS(old)
+	type failure struct {
+		SQL   string `json:"sql"`
+		Shape string `json:"shape"`
+		Want  int    `json:"want_rows"`
+		Got   int    `json:"got_rows"`
+		Run   int    `json:"run"`
+		Err   string `json:"err,omitempty"`
+	}
+	var failures []failure
+	var samples []any
+	runs, rounds := 0, 0
+	start := time.Now()
+	for (time.Since(start) < budget || rounds < minRounds) && runs < maxRuns && len(failures) < 3 {
+		rounds++
+		// tables: lk x ld left rows, rk x rd right rows (d duplicates of every key), a second column for a two-part ON
+		lk, ld := 20+r.Intn(100), 1+r.Intn(6)
+		rk, rd := 15+r.Intn(30), 1+r.Intn(5)
+		if r.Chance(20) {
+			lk, ld, rk, rd = 150+r.Intn(200), 1, 100+r.Intn(100), 1 // many distinct keys, no duplicates
+		}
+		for lk*ld*rk*rd > 50000 { // at most about 50 000 result rows per run (four callers hold a result each)
+			lk, rk = lk*3/4, rk*4/5
+		}
+		var l, rt []any
+		for i := 0; i < lk; i++ {
+			for d := 0; d < ld; d++ {
+				l = append(l, map[string]any{"rid": float64(len(l)), "k": float64(i), "v": float64(r.Intn(3))})
+			}
+		}
+		for i := 0; i < rk; i++ {
+			for d := 0; d < rd; d++ {
+				rt = append(rt, map[string]any{"rid": float64(len(rt)), "m": float64(i + r.Intn(2)*lk/3), "w": float64(r.Intn(3))})
+			}
+		}
+		doc := map[string]any{"l": l, "r": rt}
+		on := Pick(r, []string{"x.k != y.m", "x.k != y.m", "y.m != x.k", "x.k < y.m", "x.k >= y.m", "x.k != y.m AND x.v <= y.w", "x.k < y.m OR x.k > y.m", "x.k = y.m OR x.v != y.w"})
+		type variant struct{ seq, par string }
+		v := Pick(r, []variant{{"JOIN", "PARALLEL JOIN"}, {"JOIN", "PARALLEL JOIN"}, {"LEFT JOIN", "PARALLEL LEFT JOIN"}, {"RIGHT JOIN", "PARALLEL RIGHT JOIN"}, {"STRAIGHT_JOIN", "PARALLEL STRAIGHT_JOIN"}})
+		if v.seq == "STRAIGHT_JOIN" && r.Bool() {
+			on = "x.v = y.w" // an equi-join forced onto the nested loop: few keys, very large batches
+		}
+		shape := fmt.Sprintf("%d keys x %d rows (left), %d keys x %d rows (right)", lk, ld, rk, rd)
+		seqSQL := "SELECT * FROM l x " + v.seq + " r y ON " + on
+		parSQL := "SELECT * FROM l x " + v.par + " r y ON " + on
+		want := runEngine(deepCopy(anyMap(doc)).(map[string]any), seqSQL)
+		wantPairs := pairKeys(want.Rows)
+		wantFull := rowsFingerprint(want.Rows)
+		if len(samples) < 3 {
+			samples = append(samples, map[string]any{"par": parSQL, "shape": shape, "rows": len(want.Rows)})
+		}
+		reps := 6
+		var mu sync.Mutex
+		var wg sync.WaitGroup
+		for c := 0; c < callers; c++ {
+			wg.Add(1)
+			go func(c int) {
+				defer wg.Done()
+				mine := deepCopy(anyMap(doc)).(map[string]any)
+				for i := 0; i < reps; i++ {
+					got := runEngine(mine, parSQL)
+					ok := got.Class == want.Class && samePairs(pairKeys(got.Rows), wantPairs)
+					if ok && c == 0 && i == 0 {
+						ok = sameMultiset(rowsFingerprint(got.Rows), wantFull) // the full rows once per round
+					}
+					mu.Lock()
+					runs++
+					if !ok && len(failures) < 3 {
+						failures = append(failures, failure{SQL: parSQL, Shape: shape, Want: len(want.Rows), Got: len(got.Rows), Run: runs, Err: got.Err})
+					}
+					mu.Unlock()
+				}
+			}(c)
+		}
+		wg.Wait()
+	}
+	writeJSON(out+"/c04nested.json", map[string]any{"rounds": rounds, "runs": runs, "cases": runs, "failures": failures, "samples": samples,
+		"gomaxprocs": procs, "callers": callers, "seconds": time.Since(start).Seconds()})
 }
